@@ -33,14 +33,14 @@ EXTRA = {
     "fp": dict(decl="fp: fn(i64) -> i64", arg="fpid", ptr="fn(i64) -> i64"),
     "cl": dict(decl="cl: impl Fn(i64) -> i64 + ::core::marker::Send", arg="fpid", ptr="fn(i64) -> i64"),
     "bx": dict(decl="bx: ::std::boxed::Box<dyn Bound + ::core::marker::Send>", arg="::std::boxed::Box::new(3i64)", ptr="::std::boxed::Box<dyn Bound + ::core::marker::Send>"),
-    "mu": dict(decl="m: &mut i64", arg="&mut mm", ptr="&'b mut i64", ref=True),
+    "mu": dict(decl="mr: &mut i64", arg="&mut mm", ptr="&'b mut i64", ref=True),
     "sl": dict(decl="sl: &[u8]", arg="&[1u8, 2]", ptr="&'b [u8]", ref=True),
     "tu": dict(decl="tu: (i64, &str)", arg="(1, \"s\")", ptr="(i64, &'b str)", ref=True),
     # a where-predicate that names 'static / a for<>-bound lifetime BEFORE a lifetime of the fn
     "ws": dict(decl="r: &'b X, v: V", lts=["'b"], gen=["V"], where=["V: 'static + Lab<'b> + ::core::marker::Send"], arg="&x, 6i64", ptr="&'b X, i64", ref=True, no_ptr=True),
     "wh": dict(decl="r: &'b X, v: V", lts=["'b"], gen=["V: ::core::marker::Send"], where=["for<'z> &'z V: Lab<'b>"], arg="&x, 6i64", ptr="&'b X, i64", ref=True, no_ptr=True),
     # a where-predicate that names a fn lifetime inside the ARGUMENTS of a trait bound
-    "wf": dict(decl="r: &'b X, p: P", lts=["'b"], gen=["P"], where=["P: Fn(&'b X) -> i64 + ::core::marker::Send"], arg="&x, xnum", ptr="&'b X, fn(&'b X) -> i64", ref=True, no_ptr=True),
+    "wf": dict(decl="r: &'b X, pf: P", lts=["'b"], gen=["P"], where=["P: Fn(&'b X) -> i64 + ::core::marker::Send"], arg="&x, xnum", ptr="&'b X, fn(&'b X) -> i64", ref=True, no_ptr=True),
     # two named lifetimes related by an outlives predicate: in the where clause / inline
     "lw": dict(decl="r: &'b X, r2: &'c X", lts=["'b", "'c"], where=["'c: 'b"], arg="&x, &x", ptr="&'b X, &'c X", ref=True, no_ptr=True),
     "li": dict(decl="r: &'b X, r2: &'c X", lts=["'b", "'c: 'b"], arg="&x, &x", ptr="&'b X, &'c X", ref=True, no_ptr=True),
